@@ -93,17 +93,14 @@ def graph? (j : Json) : Option BGraph := do
     | _ => none)
   pure { directed := d, verts := vs, edges := es }
 
-/-- `str(id)` for atomic IDs -/
-def cast : PyId → String
-  | .atom (.int i) => toString i
-  | .atom (.str s) => s
-  | _ => "?"
+/-- `str(id)` for atomic IDs: `Xgi.C10.strCast` (Convert.lean; theorem `hypergraphDict_rt_int_str`) -/
+def cast : PyId → String := strCast
 
-/-- `nodetype` / `edgetype`: `int` or `None` -/
+/-- `nodetype` / `edgetype`: `int` (`uncastInt`) or `None` (`uncastStr`); "mixed" = `None` on IDs of both types -/
 def uncast? : String → Option (String → Except Err PyId)
-  | "int" => some (fun s => match s.toInt? with | some i => .ok (.int i) | none => .error .type)
-  | "none" => some (fun s => .ok (.str s))
-  | "mixed" => some (fun s => .ok (.str s))
+  | "int" => some uncastInt
+  | "none" => some uncastStr
+  | "mixed" => some uncastStr
   | _ => none
 
 def hdictJson (d : HDict) : Json :=
